@@ -114,7 +114,11 @@ func (t *Thread) callFn(fn *ssa.Function, args []Value, env []Value, pos token.P
 			e.stubUse(name)
 			return h(t, fn, args, pos)
 		}
-		if pkg != nil {
+		if h := prefixStub(name); h != nil {
+			e.stubUse(name)
+			return h(t, fn, args, pos)
+		}
+		if pkg != nil && !purePackages[pkg.Pkg.Path()] {
 			e.unsupported("external callee " + name + " at " + t.posOf(pos))
 		}
 	}
